@@ -869,108 +869,110 @@ Definition unpaired_tables : list (list (N * N)) := [
   jwt_jwtrsassapss_kidStrategyFromOutputPrefixType_false;
   signature_ecdsa_coordinateSizeForCurve].
 
-(* ---- per key type URL: (url as bytes, (kind, (variant -> prefix map, prefix -> variant map))).
+(* ---- per key type URL: (url as bytes, (kind, (custom, (variant -> prefix map, (prefix -> variant map, prefix -> variant map when a custom kid is present))))).
    kind 0: the maps are used.  Types without variants compare the prefix with RAW (3)
    directly (PRFs: raw_only maps) or copy it from the derived key template (key
    derivation: identity maps).  kind 1: the key parser never looks at the prefix
-   and the serializer always emits RAW with id 0 (streaming AEADs). ---- *)
+   and the serializer always emits RAW with id 0 (streaming AEADs).  kind 2: JWT
+   types, whose KID strategy also depends on the presence of a custom kid;
+   custom = the constant CustomKID of the package. ---- *)
 Definition raw_only_to : list (N * N) := [(0, 3)].
 Definition raw_only_from : list (N * N) := [(3, 0)].
 Definition prefix_identity : list (N * N) := [(1, 1); (2, 2); (3, 3); (4, 4)].
 
-Definition prefix_maps : list (list N * (N * (list (N * N) * list (N * N)))) := [
+Definition prefix_maps : list (list N * (N * (N * (list (N * N) * (list (N * N) * list (N * N)))))) := [
   (* aead_aesctrhmac typeURL = "type.googleapis.com/google.crypto.tink.AesCtrHmacAeadKey" *)
-  ([116;121;112;101;46;103;111;111;103;108;101;97;112;105;115;46;99;111;109;47;103;111;111;103;108;101;46;99;114;121;112;116;111;46;116;105;110;107;46;65;101;115;67;116;114;72;109;97;99;65;101;97;100;75;101;121], (0, (aead_aesctrhmac_protoOutputPrefixTypeFromVariant, aead_aesctrhmac_variantFromProto)));
+  ([116;121;112;101;46;103;111;111;103;108;101;97;112;105;115;46;99;111;109;47;103;111;111;103;108;101;46;99;114;121;112;116;111;46;116;105;110;107;46;65;101;115;67;116;114;72;109;97;99;65;101;97;100;75;101;121], (0, (0, (aead_aesctrhmac_protoOutputPrefixTypeFromVariant, (aead_aesctrhmac_variantFromProto, aead_aesctrhmac_variantFromProto)))));
   (* aead_aesgcm typeURL = "type.googleapis.com/google.crypto.tink.AesGcmKey" *)
-  ([116;121;112;101;46;103;111;111;103;108;101;97;112;105;115;46;99;111;109;47;103;111;111;103;108;101;46;99;114;121;112;116;111;46;116;105;110;107;46;65;101;115;71;99;109;75;101;121], (0, (aead_aesgcm_protoOutputPrefixTypeFromVariant, aead_aesgcm_variantFromProto)));
+  ([116;121;112;101;46;103;111;111;103;108;101;97;112;105;115;46;99;111;109;47;103;111;111;103;108;101;46;99;114;121;112;116;111;46;116;105;110;107;46;65;101;115;71;99;109;75;101;121], (0, (0, (aead_aesgcm_protoOutputPrefixTypeFromVariant, (aead_aesgcm_variantFromProto, aead_aesgcm_variantFromProto)))));
   (* aead_aesgcmsiv typeURL = "type.googleapis.com/google.crypto.tink.AesGcmSivKey" *)
-  ([116;121;112;101;46;103;111;111;103;108;101;97;112;105;115;46;99;111;109;47;103;111;111;103;108;101;46;99;114;121;112;116;111;46;116;105;110;107;46;65;101;115;71;99;109;83;105;118;75;101;121], (0, (aead_aesgcmsiv_protoOutputPrefixTypeFromVariant, aead_aesgcmsiv_variantFromProto)));
+  ([116;121;112;101;46;103;111;111;103;108;101;97;112;105;115;46;99;111;109;47;103;111;111;103;108;101;46;99;114;121;112;116;111;46;116;105;110;107;46;65;101;115;71;99;109;83;105;118;75;101;121], (0, (0, (aead_aesgcmsiv_protoOutputPrefixTypeFromVariant, (aead_aesgcmsiv_variantFromProto, aead_aesgcmsiv_variantFromProto)))));
   (* aead_chacha20poly1305 typeURL = "type.googleapis.com/google.crypto.tink.ChaCha20Poly1305Key" *)
-  ([116;121;112;101;46;103;111;111;103;108;101;97;112;105;115;46;99;111;109;47;103;111;111;103;108;101;46;99;114;121;112;116;111;46;116;105;110;107;46;67;104;97;67;104;97;50;48;80;111;108;121;49;51;48;53;75;101;121], (0, (aead_chacha20poly1305_protoOutputPrefixTypeFromVariant, aead_chacha20poly1305_variantFromProto)));
+  ([116;121;112;101;46;103;111;111;103;108;101;97;112;105;115;46;99;111;109;47;103;111;111;103;108;101;46;99;114;121;112;116;111;46;116;105;110;107;46;67;104;97;67;104;97;50;48;80;111;108;121;49;51;48;53;75;101;121], (0, (0, (aead_chacha20poly1305_protoOutputPrefixTypeFromVariant, (aead_chacha20poly1305_variantFromProto, aead_chacha20poly1305_variantFromProto)))));
   (* aead_xaesgcm typeURL = "type.googleapis.com/google.crypto.tink.XAesGcmKey" *)
-  ([116;121;112;101;46;103;111;111;103;108;101;97;112;105;115;46;99;111;109;47;103;111;111;103;108;101;46;99;114;121;112;116;111;46;116;105;110;107;46;88;65;101;115;71;99;109;75;101;121], (0, (aead_xaesgcm_protoOutputPrefixTypeFromVariant, aead_xaesgcm_variantFromProto)));
+  ([116;121;112;101;46;103;111;111;103;108;101;97;112;105;115;46;99;111;109;47;103;111;111;103;108;101;46;99;114;121;112;116;111;46;116;105;110;107;46;88;65;101;115;71;99;109;75;101;121], (0, (0, (aead_xaesgcm_protoOutputPrefixTypeFromVariant, (aead_xaesgcm_variantFromProto, aead_xaesgcm_variantFromProto)))));
   (* aead_xchacha20poly1305 typeURL = "type.googleapis.com/google.crypto.tink.XChaCha20Poly1305Key" *)
-  ([116;121;112;101;46;103;111;111;103;108;101;97;112;105;115;46;99;111;109;47;103;111;111;103;108;101;46;99;114;121;112;116;111;46;116;105;110;107;46;88;67;104;97;67;104;97;50;48;80;111;108;121;49;51;48;53;75;101;121], (0, (aead_xchacha20poly1305_protoOutputPrefixTypeFromVariant, aead_xchacha20poly1305_variantFromProto)));
+  ([116;121;112;101;46;103;111;111;103;108;101;97;112;105;115;46;99;111;109;47;103;111;111;103;108;101;46;99;114;121;112;116;111;46;116;105;110;107;46;88;67;104;97;67;104;97;50;48;80;111;108;121;49;51;48;53;75;101;121], (0, (0, (aead_xchacha20poly1305_protoOutputPrefixTypeFromVariant, (aead_xchacha20poly1305_variantFromProto, aead_xchacha20poly1305_variantFromProto)))));
   (* daead_aessiv typeURL = "type.googleapis.com/google.crypto.tink.AesSivKey" *)
-  ([116;121;112;101;46;103;111;111;103;108;101;97;112;105;115;46;99;111;109;47;103;111;111;103;108;101;46;99;114;121;112;116;111;46;116;105;110;107;46;65;101;115;83;105;118;75;101;121], (0, (daead_aessiv_protoOutputPrefixTypeFromVariant, daead_aessiv_variantFromProto)));
+  ([116;121;112;101;46;103;111;111;103;108;101;97;112;105;115;46;99;111;109;47;103;111;111;103;108;101;46;99;114;121;112;116;111;46;116;105;110;107;46;65;101;115;83;105;118;75;101;121], (0, (0, (daead_aessiv_protoOutputPrefixTypeFromVariant, (daead_aessiv_variantFromProto, daead_aessiv_variantFromProto)))));
   (* hybrid_ecies privateKeyTypeURL = "type.googleapis.com/google.crypto.tink.EciesAeadHkdfPrivateKey" *)
-  ([116;121;112;101;46;103;111;111;103;108;101;97;112;105;115;46;99;111;109;47;103;111;111;103;108;101;46;99;114;121;112;116;111;46;116;105;110;107;46;69;99;105;101;115;65;101;97;100;72;107;100;102;80;114;105;118;97;116;101;75;101;121], (0, (hybrid_ecies_protoOutputPrefixTypeFromVariant, hybrid_ecies_variantFromProto)));
+  ([116;121;112;101;46;103;111;111;103;108;101;97;112;105;115;46;99;111;109;47;103;111;111;103;108;101;46;99;114;121;112;116;111;46;116;105;110;107;46;69;99;105;101;115;65;101;97;100;72;107;100;102;80;114;105;118;97;116;101;75;101;121], (0, (0, (hybrid_ecies_protoOutputPrefixTypeFromVariant, (hybrid_ecies_variantFromProto, hybrid_ecies_variantFromProto)))));
   (* hybrid_ecies publicKeyTypeURL = "type.googleapis.com/google.crypto.tink.EciesAeadHkdfPublicKey" *)
-  ([116;121;112;101;46;103;111;111;103;108;101;97;112;105;115;46;99;111;109;47;103;111;111;103;108;101;46;99;114;121;112;116;111;46;116;105;110;107;46;69;99;105;101;115;65;101;97;100;72;107;100;102;80;117;98;108;105;99;75;101;121], (0, (hybrid_ecies_protoOutputPrefixTypeFromVariant, hybrid_ecies_variantFromProto)));
+  ([116;121;112;101;46;103;111;111;103;108;101;97;112;105;115;46;99;111;109;47;103;111;111;103;108;101;46;99;114;121;112;116;111;46;116;105;110;107;46;69;99;105;101;115;65;101;97;100;72;107;100;102;80;117;98;108;105;99;75;101;121], (0, (0, (hybrid_ecies_protoOutputPrefixTypeFromVariant, (hybrid_ecies_variantFromProto, hybrid_ecies_variantFromProto)))));
   (* hybrid_hpke privateKeyTypeURL = "type.googleapis.com/google.crypto.tink.HpkePrivateKey" *)
-  ([116;121;112;101;46;103;111;111;103;108;101;97;112;105;115;46;99;111;109;47;103;111;111;103;108;101;46;99;114;121;112;116;111;46;116;105;110;107;46;72;112;107;101;80;114;105;118;97;116;101;75;101;121], (0, (hybrid_hpke_protoOutputPrefixTypeFromVariant, hybrid_hpke_protoOutputPrefixTypeToVariant)));
+  ([116;121;112;101;46;103;111;111;103;108;101;97;112;105;115;46;99;111;109;47;103;111;111;103;108;101;46;99;114;121;112;116;111;46;116;105;110;107;46;72;112;107;101;80;114;105;118;97;116;101;75;101;121], (0, (0, (hybrid_hpke_protoOutputPrefixTypeFromVariant, (hybrid_hpke_protoOutputPrefixTypeToVariant, hybrid_hpke_protoOutputPrefixTypeToVariant)))));
   (* hybrid_hpke publicKeyTypeURL = "type.googleapis.com/google.crypto.tink.HpkePublicKey" *)
-  ([116;121;112;101;46;103;111;111;103;108;101;97;112;105;115;46;99;111;109;47;103;111;111;103;108;101;46;99;114;121;112;116;111;46;116;105;110;107;46;72;112;107;101;80;117;98;108;105;99;75;101;121], (0, (hybrid_hpke_protoOutputPrefixTypeFromVariant, hybrid_hpke_protoOutputPrefixTypeToVariant)));
+  ([116;121;112;101;46;103;111;111;103;108;101;97;112;105;115;46;99;111;109;47;103;111;111;103;108;101;46;99;114;121;112;116;111;46;116;105;110;107;46;72;112;107;101;80;117;98;108;105;99;75;101;121], (0, (0, (hybrid_hpke_protoOutputPrefixTypeFromVariant, (hybrid_hpke_protoOutputPrefixTypeToVariant, hybrid_hpke_protoOutputPrefixTypeToVariant)))));
   (* jwt_jwtecdsa privateKeyTypeURL = "type.googleapis.com/google.crypto.tink.JwtEcdsaPrivateKey" *)
-  ([116;121;112;101;46;103;111;111;103;108;101;97;112;105;115;46;99;111;109;47;103;111;111;103;108;101;46;99;114;121;112;116;111;46;116;105;110;107;46;74;119;116;69;99;100;115;97;80;114;105;118;97;116;101;75;101;121], (0, (jwt_jwtecdsa_outputPrefixTypeFromKIDStrategy, jwt_jwtecdsa_kidStrategyFromOutputPrefixType_false)));
+  ([116;121;112;101;46;103;111;111;103;108;101;97;112;105;115;46;99;111;109;47;103;111;111;103;108;101;46;99;114;121;112;116;111;46;116;105;110;107;46;74;119;116;69;99;100;115;97;80;114;105;118;97;116;101;75;101;121], (2, (3, (jwt_jwtecdsa_outputPrefixTypeFromKIDStrategy, (jwt_jwtecdsa_kidStrategyFromOutputPrefixType_false, jwt_jwtecdsa_kidStrategyFromOutputPrefixType_true)))));
   (* jwt_jwtecdsa publicKeyTypeURL = "type.googleapis.com/google.crypto.tink.JwtEcdsaPublicKey" *)
-  ([116;121;112;101;46;103;111;111;103;108;101;97;112;105;115;46;99;111;109;47;103;111;111;103;108;101;46;99;114;121;112;116;111;46;116;105;110;107;46;74;119;116;69;99;100;115;97;80;117;98;108;105;99;75;101;121], (0, (jwt_jwtecdsa_outputPrefixTypeFromKIDStrategy, jwt_jwtecdsa_kidStrategyFromOutputPrefixType_false)));
+  ([116;121;112;101;46;103;111;111;103;108;101;97;112;105;115;46;99;111;109;47;103;111;111;103;108;101;46;99;114;121;112;116;111;46;116;105;110;107;46;74;119;116;69;99;100;115;97;80;117;98;108;105;99;75;101;121], (2, (3, (jwt_jwtecdsa_outputPrefixTypeFromKIDStrategy, (jwt_jwtecdsa_kidStrategyFromOutputPrefixType_false, jwt_jwtecdsa_kidStrategyFromOutputPrefixType_true)))));
   (* jwt_jwthmac keyTypeURL = "type.googleapis.com/google.crypto.tink.JwtHmacKey" *)
-  ([116;121;112;101;46;103;111;111;103;108;101;97;112;105;115;46;99;111;109;47;103;111;111;103;108;101;46;99;114;121;112;116;111;46;116;105;110;107;46;74;119;116;72;109;97;99;75;101;121], (0, (jwt_jwthmac_outputPrefixTypeFromKIDStrategy, jwt_jwthmac_kidStrategyFromOutputPrefixType_false)));
+  ([116;121;112;101;46;103;111;111;103;108;101;97;112;105;115;46;99;111;109;47;103;111;111;103;108;101;46;99;114;121;112;116;111;46;116;105;110;107;46;74;119;116;72;109;97;99;75;101;121], (2, (3, (jwt_jwthmac_outputPrefixTypeFromKIDStrategy, (jwt_jwthmac_kidStrategyFromOutputPrefixType_false, jwt_jwthmac_kidStrategyFromOutputPrefixType_true)))));
   (* jwt_jwtmldsa privateKeyTypeURL = "type.googleapis.com/google.crypto.tink.JwtMlDsaPrivateKey" *)
-  ([116;121;112;101;46;103;111;111;103;108;101;97;112;105;115;46;99;111;109;47;103;111;111;103;108;101;46;99;114;121;112;116;111;46;116;105;110;107;46;74;119;116;77;108;68;115;97;80;114;105;118;97;116;101;75;101;121], (0, (jwt_jwtmldsa_outputPrefixTypeFromKIDStrategy, jwt_jwtmldsa_kidStrategyFromOutputPrefixType_false)));
+  ([116;121;112;101;46;103;111;111;103;108;101;97;112;105;115;46;99;111;109;47;103;111;111;103;108;101;46;99;114;121;112;116;111;46;116;105;110;107;46;74;119;116;77;108;68;115;97;80;114;105;118;97;116;101;75;101;121], (2, (3, (jwt_jwtmldsa_outputPrefixTypeFromKIDStrategy, (jwt_jwtmldsa_kidStrategyFromOutputPrefixType_false, jwt_jwtmldsa_kidStrategyFromOutputPrefixType_true)))));
   (* jwt_jwtmldsa publicKeyTypeURL = "type.googleapis.com/google.crypto.tink.JwtMlDsaPublicKey" *)
-  ([116;121;112;101;46;103;111;111;103;108;101;97;112;105;115;46;99;111;109;47;103;111;111;103;108;101;46;99;114;121;112;116;111;46;116;105;110;107;46;74;119;116;77;108;68;115;97;80;117;98;108;105;99;75;101;121], (0, (jwt_jwtmldsa_outputPrefixTypeFromKIDStrategy, jwt_jwtmldsa_kidStrategyFromOutputPrefixType_false)));
+  ([116;121;112;101;46;103;111;111;103;108;101;97;112;105;115;46;99;111;109;47;103;111;111;103;108;101;46;99;114;121;112;116;111;46;116;105;110;107;46;74;119;116;77;108;68;115;97;80;117;98;108;105;99;75;101;121], (2, (3, (jwt_jwtmldsa_outputPrefixTypeFromKIDStrategy, (jwt_jwtmldsa_kidStrategyFromOutputPrefixType_false, jwt_jwtmldsa_kidStrategyFromOutputPrefixType_true)))));
   (* jwt_jwtrsassapkcs1 privateKeyTypeURL = "type.googleapis.com/google.crypto.tink.JwtRsaSsaPkcs1PrivateKey" *)
-  ([116;121;112;101;46;103;111;111;103;108;101;97;112;105;115;46;99;111;109;47;103;111;111;103;108;101;46;99;114;121;112;116;111;46;116;105;110;107;46;74;119;116;82;115;97;83;115;97;80;107;99;115;49;80;114;105;118;97;116;101;75;101;121], (0, (jwt_jwtrsassapkcs1_outputPrefixTypeFromKIDStrategy, jwt_jwtrsassapkcs1_kidStrategyFromOutputPrefixType_false)));
+  ([116;121;112;101;46;103;111;111;103;108;101;97;112;105;115;46;99;111;109;47;103;111;111;103;108;101;46;99;114;121;112;116;111;46;116;105;110;107;46;74;119;116;82;115;97;83;115;97;80;107;99;115;49;80;114;105;118;97;116;101;75;101;121], (2, (3, (jwt_jwtrsassapkcs1_outputPrefixTypeFromKIDStrategy, (jwt_jwtrsassapkcs1_kidStrategyFromOutputPrefixType_false, jwt_jwtrsassapkcs1_kidStrategyFromOutputPrefixType_true)))));
   (* jwt_jwtrsassapkcs1 publicKeyTypeURL = "type.googleapis.com/google.crypto.tink.JwtRsaSsaPkcs1PublicKey" *)
-  ([116;121;112;101;46;103;111;111;103;108;101;97;112;105;115;46;99;111;109;47;103;111;111;103;108;101;46;99;114;121;112;116;111;46;116;105;110;107;46;74;119;116;82;115;97;83;115;97;80;107;99;115;49;80;117;98;108;105;99;75;101;121], (0, (jwt_jwtrsassapkcs1_outputPrefixTypeFromKIDStrategy, jwt_jwtrsassapkcs1_kidStrategyFromOutputPrefixType_false)));
+  ([116;121;112;101;46;103;111;111;103;108;101;97;112;105;115;46;99;111;109;47;103;111;111;103;108;101;46;99;114;121;112;116;111;46;116;105;110;107;46;74;119;116;82;115;97;83;115;97;80;107;99;115;49;80;117;98;108;105;99;75;101;121], (2, (3, (jwt_jwtrsassapkcs1_outputPrefixTypeFromKIDStrategy, (jwt_jwtrsassapkcs1_kidStrategyFromOutputPrefixType_false, jwt_jwtrsassapkcs1_kidStrategyFromOutputPrefixType_true)))));
   (* jwt_jwtrsassapss privateKeyTypeURL = "type.googleapis.com/google.crypto.tink.JwtRsaSsaPssPrivateKey" *)
-  ([116;121;112;101;46;103;111;111;103;108;101;97;112;105;115;46;99;111;109;47;103;111;111;103;108;101;46;99;114;121;112;116;111;46;116;105;110;107;46;74;119;116;82;115;97;83;115;97;80;115;115;80;114;105;118;97;116;101;75;101;121], (0, (jwt_jwtrsassapss_outputPrefixTypeFromKIDStrategy, jwt_jwtrsassapss_kidStrategyFromOutputPrefixType_false)));
+  ([116;121;112;101;46;103;111;111;103;108;101;97;112;105;115;46;99;111;109;47;103;111;111;103;108;101;46;99;114;121;112;116;111;46;116;105;110;107;46;74;119;116;82;115;97;83;115;97;80;115;115;80;114;105;118;97;116;101;75;101;121], (2, (3, (jwt_jwtrsassapss_outputPrefixTypeFromKIDStrategy, (jwt_jwtrsassapss_kidStrategyFromOutputPrefixType_false, jwt_jwtrsassapss_kidStrategyFromOutputPrefixType_true)))));
   (* jwt_jwtrsassapss publicKeyTypeURL = "type.googleapis.com/google.crypto.tink.JwtRsaSsaPssPublicKey" *)
-  ([116;121;112;101;46;103;111;111;103;108;101;97;112;105;115;46;99;111;109;47;103;111;111;103;108;101;46;99;114;121;112;116;111;46;116;105;110;107;46;74;119;116;82;115;97;83;115;97;80;115;115;80;117;98;108;105;99;75;101;121], (0, (jwt_jwtrsassapss_outputPrefixTypeFromKIDStrategy, jwt_jwtrsassapss_kidStrategyFromOutputPrefixType_false)));
+  ([116;121;112;101;46;103;111;111;103;108;101;97;112;105;115;46;99;111;109;47;103;111;111;103;108;101;46;99;114;121;112;116;111;46;116;105;110;107;46;74;119;116;82;115;97;83;115;97;80;115;115;80;117;98;108;105;99;75;101;121], (2, (3, (jwt_jwtrsassapss_outputPrefixTypeFromKIDStrategy, (jwt_jwtrsassapss_kidStrategyFromOutputPrefixType_false, jwt_jwtrsassapss_kidStrategyFromOutputPrefixType_true)))));
   (* keyderivation_prfbasedkeyderivation typeURL = "type.googleapis.com/google.crypto.tink.PrfBasedDeriverKey" *)
-  ([116;121;112;101;46;103;111;111;103;108;101;97;112;105;115;46;99;111;109;47;103;111;111;103;108;101;46;99;114;121;112;116;111;46;116;105;110;107;46;80;114;102;66;97;115;101;100;68;101;114;105;118;101;114;75;101;121], (0, (prefix_identity, prefix_identity)));
+  ([116;121;112;101;46;103;111;111;103;108;101;97;112;105;115;46;99;111;109;47;103;111;111;103;108;101;46;99;114;121;112;116;111;46;116;105;110;107;46;80;114;102;66;97;115;101;100;68;101;114;105;118;101;114;75;101;121], (0, (0, (prefix_identity, (prefix_identity, prefix_identity)))));
   (* mac_aescmac typeURL = "type.googleapis.com/google.crypto.tink.AesCmacKey" *)
-  ([116;121;112;101;46;103;111;111;103;108;101;97;112;105;115;46;99;111;109;47;103;111;111;103;108;101;46;99;114;121;112;116;111;46;116;105;110;107;46;65;101;115;67;109;97;99;75;101;121], (0, (mac_aescmac_protoOutputPrefixTypeFromVariant, mac_aescmac_variantFromProto)));
+  ([116;121;112;101;46;103;111;111;103;108;101;97;112;105;115;46;99;111;109;47;103;111;111;103;108;101;46;99;114;121;112;116;111;46;116;105;110;107;46;65;101;115;67;109;97;99;75;101;121], (0, (0, (mac_aescmac_protoOutputPrefixTypeFromVariant, (mac_aescmac_variantFromProto, mac_aescmac_variantFromProto)))));
   (* mac_hmac typeURL = "type.googleapis.com/google.crypto.tink.HmacKey" *)
-  ([116;121;112;101;46;103;111;111;103;108;101;97;112;105;115;46;99;111;109;47;103;111;111;103;108;101;46;99;114;121;112;116;111;46;116;105;110;107;46;72;109;97;99;75;101;121], (0, (mac_hmac_protoOutputPrefixTypeFromVariant, mac_hmac_variantFromProto)));
+  ([116;121;112;101;46;103;111;111;103;108;101;97;112;105;115;46;99;111;109;47;103;111;111;103;108;101;46;99;114;121;112;116;111;46;116;105;110;107;46;72;109;97;99;75;101;121], (0, (0, (mac_hmac_protoOutputPrefixTypeFromVariant, (mac_hmac_variantFromProto, mac_hmac_variantFromProto)))));
   (* prf_aescmacprf typeURL = "type.googleapis.com/google.crypto.tink.AesCmacPrfKey" *)
-  ([116;121;112;101;46;103;111;111;103;108;101;97;112;105;115;46;99;111;109;47;103;111;111;103;108;101;46;99;114;121;112;116;111;46;116;105;110;107;46;65;101;115;67;109;97;99;80;114;102;75;101;121], (0, (raw_only_to, raw_only_from)));
+  ([116;121;112;101;46;103;111;111;103;108;101;97;112;105;115;46;99;111;109;47;103;111;111;103;108;101;46;99;114;121;112;116;111;46;116;105;110;107;46;65;101;115;67;109;97;99;80;114;102;75;101;121], (0, (0, (raw_only_to, (raw_only_from, raw_only_from)))));
   (* prf_hkdfprf typeURL = "type.googleapis.com/google.crypto.tink.HkdfPrfKey" *)
-  ([116;121;112;101;46;103;111;111;103;108;101;97;112;105;115;46;99;111;109;47;103;111;111;103;108;101;46;99;114;121;112;116;111;46;116;105;110;107;46;72;107;100;102;80;114;102;75;101;121], (0, (raw_only_to, raw_only_from)));
+  ([116;121;112;101;46;103;111;111;103;108;101;97;112;105;115;46;99;111;109;47;103;111;111;103;108;101;46;99;114;121;112;116;111;46;116;105;110;107;46;72;107;100;102;80;114;102;75;101;121], (0, (0, (raw_only_to, (raw_only_from, raw_only_from)))));
   (* prf_hmacprf typeURL = "type.googleapis.com/google.crypto.tink.HmacPrfKey" *)
-  ([116;121;112;101;46;103;111;111;103;108;101;97;112;105;115;46;99;111;109;47;103;111;111;103;108;101;46;99;114;121;112;116;111;46;116;105;110;107;46;72;109;97;99;80;114;102;75;101;121], (0, (raw_only_to, raw_only_from)));
+  ([116;121;112;101;46;103;111;111;103;108;101;97;112;105;115;46;99;111;109;47;103;111;111;103;108;101;46;99;114;121;112;116;111;46;116;105;110;107;46;72;109;97;99;80;114;102;75;101;121], (0, (0, (raw_only_to, (raw_only_from, raw_only_from)))));
   (* signature_compositemldsa signerTypeURL = "type.googleapis.com/google.crypto.tink.CompositeMlDsaPrivateKey" *)
-  ([116;121;112;101;46;103;111;111;103;108;101;97;112;105;115;46;99;111;109;47;103;111;111;103;108;101;46;99;114;121;112;116;111;46;116;105;110;107;46;67;111;109;112;111;115;105;116;101;77;108;68;115;97;80;114;105;118;97;116;101;75;101;121], (0, (signature_compositemldsa_protoOutputPrefixTypeFromVariant, signature_compositemldsa_variantFromProto)));
+  ([116;121;112;101;46;103;111;111;103;108;101;97;112;105;115;46;99;111;109;47;103;111;111;103;108;101;46;99;114;121;112;116;111;46;116;105;110;107;46;67;111;109;112;111;115;105;116;101;77;108;68;115;97;80;114;105;118;97;116;101;75;101;121], (0, (0, (signature_compositemldsa_protoOutputPrefixTypeFromVariant, (signature_compositemldsa_variantFromProto, signature_compositemldsa_variantFromProto)))));
   (* signature_compositemldsa verifierTypeURL = "type.googleapis.com/google.crypto.tink.CompositeMlDsaPublicKey" *)
-  ([116;121;112;101;46;103;111;111;103;108;101;97;112;105;115;46;99;111;109;47;103;111;111;103;108;101;46;99;114;121;112;116;111;46;116;105;110;107;46;67;111;109;112;111;115;105;116;101;77;108;68;115;97;80;117;98;108;105;99;75;101;121], (0, (signature_compositemldsa_protoOutputPrefixTypeFromVariant, signature_compositemldsa_variantFromProto)));
+  ([116;121;112;101;46;103;111;111;103;108;101;97;112;105;115;46;99;111;109;47;103;111;111;103;108;101;46;99;114;121;112;116;111;46;116;105;110;107;46;67;111;109;112;111;115;105;116;101;77;108;68;115;97;80;117;98;108;105;99;75;101;121], (0, (0, (signature_compositemldsa_protoOutputPrefixTypeFromVariant, (signature_compositemldsa_variantFromProto, signature_compositemldsa_variantFromProto)))));
   (* signature_ecdsa signerTypeURL = "type.googleapis.com/google.crypto.tink.EcdsaPrivateKey" *)
-  ([116;121;112;101;46;103;111;111;103;108;101;97;112;105;115;46;99;111;109;47;103;111;111;103;108;101;46;99;114;121;112;116;111;46;116;105;110;107;46;69;99;100;115;97;80;114;105;118;97;116;101;75;101;121], (0, (signature_ecdsa_protoOutputPrefixTypeFromVariant, signature_ecdsa_variantFromProto)));
+  ([116;121;112;101;46;103;111;111;103;108;101;97;112;105;115;46;99;111;109;47;103;111;111;103;108;101;46;99;114;121;112;116;111;46;116;105;110;107;46;69;99;100;115;97;80;114;105;118;97;116;101;75;101;121], (0, (0, (signature_ecdsa_protoOutputPrefixTypeFromVariant, (signature_ecdsa_variantFromProto, signature_ecdsa_variantFromProto)))));
   (* signature_ecdsa verifierTypeURL = "type.googleapis.com/google.crypto.tink.EcdsaPublicKey" *)
-  ([116;121;112;101;46;103;111;111;103;108;101;97;112;105;115;46;99;111;109;47;103;111;111;103;108;101;46;99;114;121;112;116;111;46;116;105;110;107;46;69;99;100;115;97;80;117;98;108;105;99;75;101;121], (0, (signature_ecdsa_protoOutputPrefixTypeFromVariant, signature_ecdsa_variantFromProto)));
+  ([116;121;112;101;46;103;111;111;103;108;101;97;112;105;115;46;99;111;109;47;103;111;111;103;108;101;46;99;114;121;112;116;111;46;116;105;110;107;46;69;99;100;115;97;80;117;98;108;105;99;75;101;121], (0, (0, (signature_ecdsa_protoOutputPrefixTypeFromVariant, (signature_ecdsa_variantFromProto, signature_ecdsa_variantFromProto)))));
   (* signature_ed25519 signerTypeURL = "type.googleapis.com/google.crypto.tink.Ed25519PrivateKey" *)
-  ([116;121;112;101;46;103;111;111;103;108;101;97;112;105;115;46;99;111;109;47;103;111;111;103;108;101;46;99;114;121;112;116;111;46;116;105;110;107;46;69;100;50;53;53;49;57;80;114;105;118;97;116;101;75;101;121], (0, (signature_ed25519_protoOutputPrefixTypeFromVariant, signature_ed25519_variantFromProto)));
+  ([116;121;112;101;46;103;111;111;103;108;101;97;112;105;115;46;99;111;109;47;103;111;111;103;108;101;46;99;114;121;112;116;111;46;116;105;110;107;46;69;100;50;53;53;49;57;80;114;105;118;97;116;101;75;101;121], (0, (0, (signature_ed25519_protoOutputPrefixTypeFromVariant, (signature_ed25519_variantFromProto, signature_ed25519_variantFromProto)))));
   (* signature_ed25519 verifierTypeURL = "type.googleapis.com/google.crypto.tink.Ed25519PublicKey" *)
-  ([116;121;112;101;46;103;111;111;103;108;101;97;112;105;115;46;99;111;109;47;103;111;111;103;108;101;46;99;114;121;112;116;111;46;116;105;110;107;46;69;100;50;53;53;49;57;80;117;98;108;105;99;75;101;121], (0, (signature_ed25519_protoOutputPrefixTypeFromVariant, signature_ed25519_variantFromProto)));
+  ([116;121;112;101;46;103;111;111;103;108;101;97;112;105;115;46;99;111;109;47;103;111;111;103;108;101;46;99;114;121;112;116;111;46;116;105;110;107;46;69;100;50;53;53;49;57;80;117;98;108;105;99;75;101;121], (0, (0, (signature_ed25519_protoOutputPrefixTypeFromVariant, (signature_ed25519_variantFromProto, signature_ed25519_variantFromProto)))));
   (* signature_mldsa signerTypeURL = "type.googleapis.com/google.crypto.tink.MlDsaPrivateKey" *)
-  ([116;121;112;101;46;103;111;111;103;108;101;97;112;105;115;46;99;111;109;47;103;111;111;103;108;101;46;99;114;121;112;116;111;46;116;105;110;107;46;77;108;68;115;97;80;114;105;118;97;116;101;75;101;121], (0, (signature_mldsa_protoOutputPrefixTypeFromVariant, signature_mldsa_variantFromProto)));
+  ([116;121;112;101;46;103;111;111;103;108;101;97;112;105;115;46;99;111;109;47;103;111;111;103;108;101;46;99;114;121;112;116;111;46;116;105;110;107;46;77;108;68;115;97;80;114;105;118;97;116;101;75;101;121], (0, (0, (signature_mldsa_protoOutputPrefixTypeFromVariant, (signature_mldsa_variantFromProto, signature_mldsa_variantFromProto)))));
   (* signature_mldsa verifierTypeURL = "type.googleapis.com/google.crypto.tink.MlDsaPublicKey" *)
-  ([116;121;112;101;46;103;111;111;103;108;101;97;112;105;115;46;99;111;109;47;103;111;111;103;108;101;46;99;114;121;112;116;111;46;116;105;110;107;46;77;108;68;115;97;80;117;98;108;105;99;75;101;121], (0, (signature_mldsa_protoOutputPrefixTypeFromVariant, signature_mldsa_variantFromProto)));
+  ([116;121;112;101;46;103;111;111;103;108;101;97;112;105;115;46;99;111;109;47;103;111;111;103;108;101;46;99;114;121;112;116;111;46;116;105;110;107;46;77;108;68;115;97;80;117;98;108;105;99;75;101;121], (0, (0, (signature_mldsa_protoOutputPrefixTypeFromVariant, (signature_mldsa_variantFromProto, signature_mldsa_variantFromProto)))));
   (* signature_rsassapkcs1 signerTypeURL = "type.googleapis.com/google.crypto.tink.RsaSsaPkcs1PrivateKey" *)
-  ([116;121;112;101;46;103;111;111;103;108;101;97;112;105;115;46;99;111;109;47;103;111;111;103;108;101;46;99;114;121;112;116;111;46;116;105;110;107;46;82;115;97;83;115;97;80;107;99;115;49;80;114;105;118;97;116;101;75;101;121], (0, (signature_rsassapkcs1_protoOutputPrefixTypeFromVariant, signature_rsassapkcs1_variantFromProto)));
+  ([116;121;112;101;46;103;111;111;103;108;101;97;112;105;115;46;99;111;109;47;103;111;111;103;108;101;46;99;114;121;112;116;111;46;116;105;110;107;46;82;115;97;83;115;97;80;107;99;115;49;80;114;105;118;97;116;101;75;101;121], (0, (0, (signature_rsassapkcs1_protoOutputPrefixTypeFromVariant, (signature_rsassapkcs1_variantFromProto, signature_rsassapkcs1_variantFromProto)))));
   (* signature_rsassapkcs1 verifierTypeURL = "type.googleapis.com/google.crypto.tink.RsaSsaPkcs1PublicKey" *)
-  ([116;121;112;101;46;103;111;111;103;108;101;97;112;105;115;46;99;111;109;47;103;111;111;103;108;101;46;99;114;121;112;116;111;46;116;105;110;107;46;82;115;97;83;115;97;80;107;99;115;49;80;117;98;108;105;99;75;101;121], (0, (signature_rsassapkcs1_protoOutputPrefixTypeFromVariant, signature_rsassapkcs1_variantFromProto)));
+  ([116;121;112;101;46;103;111;111;103;108;101;97;112;105;115;46;99;111;109;47;103;111;111;103;108;101;46;99;114;121;112;116;111;46;116;105;110;107;46;82;115;97;83;115;97;80;107;99;115;49;80;117;98;108;105;99;75;101;121], (0, (0, (signature_rsassapkcs1_protoOutputPrefixTypeFromVariant, (signature_rsassapkcs1_variantFromProto, signature_rsassapkcs1_variantFromProto)))));
   (* signature_rsassapss signerTypeURL = "type.googleapis.com/google.crypto.tink.RsaSsaPssPrivateKey" *)
-  ([116;121;112;101;46;103;111;111;103;108;101;97;112;105;115;46;99;111;109;47;103;111;111;103;108;101;46;99;114;121;112;116;111;46;116;105;110;107;46;82;115;97;83;115;97;80;115;115;80;114;105;118;97;116;101;75;101;121], (0, (signature_rsassapss_protoOutputPrefixTypeFromVariant, signature_rsassapss_variantFromProto)));
+  ([116;121;112;101;46;103;111;111;103;108;101;97;112;105;115;46;99;111;109;47;103;111;111;103;108;101;46;99;114;121;112;116;111;46;116;105;110;107;46;82;115;97;83;115;97;80;115;115;80;114;105;118;97;116;101;75;101;121], (0, (0, (signature_rsassapss_protoOutputPrefixTypeFromVariant, (signature_rsassapss_variantFromProto, signature_rsassapss_variantFromProto)))));
   (* signature_rsassapss verifierTypeURL = "type.googleapis.com/google.crypto.tink.RsaSsaPssPublicKey" *)
-  ([116;121;112;101;46;103;111;111;103;108;101;97;112;105;115;46;99;111;109;47;103;111;111;103;108;101;46;99;114;121;112;116;111;46;116;105;110;107;46;82;115;97;83;115;97;80;115;115;80;117;98;108;105;99;75;101;121], (0, (signature_rsassapss_protoOutputPrefixTypeFromVariant, signature_rsassapss_variantFromProto)));
+  ([116;121;112;101;46;103;111;111;103;108;101;97;112;105;115;46;99;111;109;47;103;111;111;103;108;101;46;99;114;121;112;116;111;46;116;105;110;107;46;82;115;97;83;115;97;80;115;115;80;117;98;108;105;99;75;101;121], (0, (0, (signature_rsassapss_protoOutputPrefixTypeFromVariant, (signature_rsassapss_variantFromProto, signature_rsassapss_variantFromProto)))));
   (* signature_slhdsa signerTypeURL = "type.googleapis.com/google.crypto.tink.SlhDsaPrivateKey" *)
-  ([116;121;112;101;46;103;111;111;103;108;101;97;112;105;115;46;99;111;109;47;103;111;111;103;108;101;46;99;114;121;112;116;111;46;116;105;110;107;46;83;108;104;68;115;97;80;114;105;118;97;116;101;75;101;121], (0, (signature_slhdsa_protoOutputPrefixTypeFromVariant, signature_slhdsa_variantFromProto)));
+  ([116;121;112;101;46;103;111;111;103;108;101;97;112;105;115;46;99;111;109;47;103;111;111;103;108;101;46;99;114;121;112;116;111;46;116;105;110;107;46;83;108;104;68;115;97;80;114;105;118;97;116;101;75;101;121], (0, (0, (signature_slhdsa_protoOutputPrefixTypeFromVariant, (signature_slhdsa_variantFromProto, signature_slhdsa_variantFromProto)))));
   (* signature_slhdsa verifierTypeURL = "type.googleapis.com/google.crypto.tink.SlhDsaPublicKey" *)
-  ([116;121;112;101;46;103;111;111;103;108;101;97;112;105;115;46;99;111;109;47;103;111;111;103;108;101;46;99;114;121;112;116;111;46;116;105;110;107;46;83;108;104;68;115;97;80;117;98;108;105;99;75;101;121], (0, (signature_slhdsa_protoOutputPrefixTypeFromVariant, signature_slhdsa_variantFromProto)));
+  ([116;121;112;101;46;103;111;111;103;108;101;97;112;105;115;46;99;111;109;47;103;111;111;103;108;101;46;99;114;121;112;116;111;46;116;105;110;107;46;83;108;104;68;115;97;80;117;98;108;105;99;75;101;121], (0, (0, (signature_slhdsa_protoOutputPrefixTypeFromVariant, (signature_slhdsa_variantFromProto, signature_slhdsa_variantFromProto)))));
   (* streamingaead_aesctrhmac typeURL = "type.googleapis.com/google.crypto.tink.AesCtrHmacStreamingKey" *)
-  ([116;121;112;101;46;103;111;111;103;108;101;97;112;105;115;46;99;111;109;47;103;111;111;103;108;101;46;99;114;121;112;116;111;46;116;105;110;107;46;65;101;115;67;116;114;72;109;97;99;83;116;114;101;97;109;105;110;103;75;101;121], (1, (raw_only_to, raw_only_from)));
+  ([116;121;112;101;46;103;111;111;103;108;101;97;112;105;115;46;99;111;109;47;103;111;111;103;108;101;46;99;114;121;112;116;111;46;116;105;110;107;46;65;101;115;67;116;114;72;109;97;99;83;116;114;101;97;109;105;110;103;75;101;121], (1, (0, (raw_only_to, (raw_only_from, raw_only_from)))));
   (* streamingaead_aesgcmhkdf typeURL = "type.googleapis.com/google.crypto.tink.AesGcmHkdfStreamingKey" *)
-  ([116;121;112;101;46;103;111;111;103;108;101;97;112;105;115;46;99;111;109;47;103;111;111;103;108;101;46;99;114;121;112;116;111;46;116;105;110;107;46;65;101;115;71;99;109;72;107;100;102;83;116;114;101;97;109;105;110;103;75;101;121], (1, (raw_only_to, raw_only_from)))].
+  ([116;121;112;101;46;103;111;111;103;108;101;97;112;105;115;46;99;111;109;47;103;111;111;103;108;101;46;99;114;121;112;116;111;46;116;105;110;107;46;65;101;115;71;99;109;72;107;100;102;83;116;114;101;97;109;105;110;103;75;101;121], (1, (0, (raw_only_to, (raw_only_from, raw_only_from)))))].
 
-(* JWT: the prefix -> KID strategy map also depends on whether a custom kid is present *)
-Definition jwt_custom_kid_maps : list (list (N * N) * list (N * N) * list (N * N)) := [
-  (jwt_jwtecdsa_outputPrefixTypeFromKIDStrategy, jwt_jwtecdsa_kidStrategyFromOutputPrefixType_false, jwt_jwtecdsa_kidStrategyFromOutputPrefixType_true); 
-  (jwt_jwthmac_outputPrefixTypeFromKIDStrategy, jwt_jwthmac_kidStrategyFromOutputPrefixType_false, jwt_jwthmac_kidStrategyFromOutputPrefixType_true); 
-  (jwt_jwtmldsa_outputPrefixTypeFromKIDStrategy, jwt_jwtmldsa_kidStrategyFromOutputPrefixType_false, jwt_jwtmldsa_kidStrategyFromOutputPrefixType_true); 
-  (jwt_jwtrsassapkcs1_outputPrefixTypeFromKIDStrategy, jwt_jwtrsassapkcs1_kidStrategyFromOutputPrefixType_false, jwt_jwtrsassapkcs1_kidStrategyFromOutputPrefixType_true); 
-  (jwt_jwtrsassapss_outputPrefixTypeFromKIDStrategy, jwt_jwtrsassapss_kidStrategyFromOutputPrefixType_false, jwt_jwtrsassapss_kidStrategyFromOutputPrefixType_true)].
+(* JWT: (CustomKID constant, KID strategy -> prefix, prefix -> strategy without / with a custom kid) *)
+Definition jwt_custom_kid_maps : list (N * list (N * N) * list (N * N) * list (N * N)) := [
+  (3, jwt_jwtecdsa_outputPrefixTypeFromKIDStrategy, jwt_jwtecdsa_kidStrategyFromOutputPrefixType_false, jwt_jwtecdsa_kidStrategyFromOutputPrefixType_true); 
+  (3, jwt_jwthmac_outputPrefixTypeFromKIDStrategy, jwt_jwthmac_kidStrategyFromOutputPrefixType_false, jwt_jwthmac_kidStrategyFromOutputPrefixType_true); 
+  (3, jwt_jwtmldsa_outputPrefixTypeFromKIDStrategy, jwt_jwtmldsa_kidStrategyFromOutputPrefixType_false, jwt_jwtmldsa_kidStrategyFromOutputPrefixType_true); 
+  (3, jwt_jwtrsassapkcs1_outputPrefixTypeFromKIDStrategy, jwt_jwtrsassapkcs1_kidStrategyFromOutputPrefixType_false, jwt_jwtrsassapkcs1_kidStrategyFromOutputPrefixType_true); 
+  (3, jwt_jwtrsassapss_outputPrefixTypeFromKIDStrategy, jwt_jwtrsassapss_kidStrategyFromOutputPrefixType_false, jwt_jwtrsassapss_kidStrategyFromOutputPrefixType_true)].
 
 (* every table, by name order, for the generic lemmas *)
 Definition all_tables : list (list (N * N)) := [
